@@ -878,3 +878,135 @@ Proof.
   - apply (expand_item p it); [assumption|]. exact (IH _ _ HL).
 Qed.
 End Expand.
+
+(* ------------------------------------------------------------------------- *)
+(* Part 4: the printer                                                        *)
+Definition goodc (v : av) : Prop :=
+  match v with
+  | VI i => small_k KI i | VH h => small_k KH h | VC c => small_k KC c
+  | VT | VF | VN | VInf => True
+  | VS s => nonul s /\ nodot s
+  | VSym s => nonul s /\ sym_plain s = false /\ nodot s
+  | _ => False
+  end.
+
+Lemma goodc_good v : goodc v -> good_val v.
+Proof. destruct v; cbn; unfold good_char; try tauto; lia. Qed.
+Lemma goodc_facts v : goodc v -> scalar v /\ inrv v /\ exact v.
+Proof. destruct v; cbn; try tauto; lia. Qed.
+Lemma goodc_mk k z : goodc (mk k z) -> small_k k z.
+Proof. destruct k; cbn; tauto. Qed.
+
+Definition Mk (k : ikind) : Z := match k with KH => 2 ^ 64 | _ => 2 ^ 32 end.
+Lemma wr_mod k z : exists q, wr k z = z + q * Mk k.
+Proof.
+  destruct k; cbn [wr Mk]; unfold wrap32, wrap64.
+  - exists (- ((z + 2 ^ 31) / 2 ^ 32)). pose proof (Z.div_mod (z + 2 ^ 31) (2 ^ 32) ltac:(lia)). lia.
+  - exists (- ((z + 2 ^ 63) / 2 ^ 64)). pose proof (Z.div_mod (z + 2 ^ 63) (2 ^ 64) ltac:(lia)). lia.
+  - exists (- ((z + 2 ^ 31) / 2 ^ 32)). pose proof (Z.div_mod (z + 2 ^ 31) (2 ^ 32) ltac:(lia)). lia.
+Qed.
+
+Lemma small_bound k z : small_k k z -> - Mk k < 4 * z < Mk k.
+Proof. intros H. destruct k; cbn [small_k Mk] in *; lia. Qed.
+Lemma inr_bound k z : inr k z -> - Mk k <= 2 * z < Mk k.
+Proof. intros H. destruct k; cbn [inr Mk] in *; lia. Qed.
+
+(* a chain of small values with an in-range step does not wrap *)
+Lemma small_chain k x d n :
+  small_k k x -> inr k d -> (forall j, (j < n)%nat -> small_k k (wr k (x + Z.of_nat j * d))) ->
+  forall j, (j < n)%nat -> wr k (x + Z.of_nat j * d) = x + Z.of_nat j * d.
+Proof.
+  intros Hx Hd Hs j. induction j as [|j IH]; intros Hj.
+  - replace (x + Z.of_nat 0 * d) with x by lia. apply wr_id. now apply small_inr.
+  - pose proof (Hs (S j) Hj) as H1. pose proof (Hs j ltac:(lia)) as H0. rewrite IH in H0 by lia.
+    destruct (wr_mod k (x + Z.of_nat (S j) * d)) as [q Hq]. rewrite Hq in *.
+    apply small_bound in H0. apply small_bound in H1. apply inr_bound in Hd.
+    assert (0 < Mk k) by (destruct k; cbn; lia).
+    replace (x + Z.of_nat (S j) * d) with (x + Z.of_nat j * d + d) in * by lia.
+    assert (q = 0) by nia. subst q. lia.
+Qed.
+
+Lemma pav_mk o k z cols f :
+  print_arg_val_f (S f) o [mk k z] cols None = Some (tok_k k z, len (tok_k k z), cols + len (tok_k k z), false).
+Proof. destruct k; reflexivity. Qed.
+
+Lemma types_match_kind pv k b : scalar pv ->
+  types_match (av_type pv) (av_type (mk k b)) = (av_type pv =? av_type (mk k b)).
+Proof. intros _. unfold types_match. destruct k; cbn; destruct (av_type pv =? _) eqn:E; try reflexivity; lia. Qed.
+
+Lemma pav_scalar o v rest cols prev f : scalar v ->
+  print_arg_val_f (S f) o (v :: rest) cols prev =
+  match print_scalar o v cols with Some (t, w, c) => Some (t, w, c, false) | None => None end.
+Proof. destruct v; cbn [scalar]; try tauto; intros _; reflexivity. Qed.
+
+Lemma pavf_rep o n h r cols prev f :
+  print_arg_val_f (S f) o (VRep n h :: r) cols prev = print_range (print_arg_val_f f) o (VRep n h :: r) cols prev.
+Proof. reflexivity. Qed.
+
+Lemma print_range_const o n a0 y cols prev t w c' :
+  compress o = true -> 0 < n -> scalar a0 ->
+  print_scalar o a0 (cols + len (print_d n ++ [120])) = Some (t, w, c') ->
+  print_arg_val o [VRep n 0; a0; VSpc y] cols prev
+  = Some ((print_d n ++ [120]) ++ t, len (print_d n ++ [120]) + w, c', false).
+Proof.
+  intros Hon Hn Hs Hp. unfold print_arg_val. rewrite pavf_rep. unfold print_range. cbv beta iota.
+  rewrite Hon. replace (n =? 0) with false by lia. cbn [negb orb Z.eqb].
+  rewrite (pav_scalar o a0 _ _ None 4 Hs), Hp. reflexivity.
+Qed.
+
+Definition notconf (prev : option av) (k : ikind) (x : Z) : Prop :=
+  match prev with None => True | Some p => av_type p <> av_type (mk k x) \/ p = mk k x end.
+
+Lemma print_range_delta o k d x n y cols prev last :
+  compress o = true -> 2 <= n < 2 ^ 31 -> d <> 0 ->
+  wr k (x + 1 * d) = x + d -> wr k (x + (n - 1) * d) = last ->
+  (forall p, prev = Some p -> scalar p) ->
+  exists sp t c',
+    (sp = [32] \/ sp = nl4) /\
+    print_arg_val o [VRep n 1; mk k d; mk k x; VSpc y] cols prev = Some (t, len t, c', false) /\
+    (t = tail_text k x last sp /\ (d = 1 \/ d = -1) /\ notconf prev k x \/
+     t = tok_k k x ++ [32] ++ tail_text k (x + d) last sp).
+Proof.
+  intros Hon Hn Hd0 Hsec Hlast Hprev. unfold print_arg_val. rewrite pavf_rep. unfold print_range. cbv beta iota.
+  rewrite Hon. replace (n =? 0) with false by lia. cbn [negb orb]. replace (1 =? 0) with false by reflexivity.
+  cbn [negb]. rewrite pav_mk, !from_int_mk, !eq_mk.
+  rewrite !range_arg_mk by lia. rewrite Hsec, Hlast.
+  set (c1 := cols + len (tok_k k x)).
+  (* confusing previous argument? *)
+  assert (Hcf : exists cf,
+     match prev with
+     | Some p => if av_type p =? av_type (mk k x)
+                 then match av_eq_single (mk k x) p with Some b => Some (negb b) | None => None end
+                 else Some false
+     | None => Some false end = Some cf /\ (cf = false -> notconf prev k x)).
+  { destruct prev as [p|]; [|exists false; split; [reflexivity|intros _; exact I]].
+    destruct (av_type p =? av_type (mk k x)) eqn:Et.
+    - apply Z.eqb_eq in Et. destruct (type_mk_inj k x p (Hprev p eq_refl) Et) as (a & ->).
+      rewrite eq_mk. exists (negb (x =? a)). split; [reflexivity|]. intros Hf. right.
+      apply negb_false_iff, Z.eqb_eq in Hf. now subst.
+    - exists false. split; [reflexivity|]. intros _. left. now apply Z.eqb_neq. }
+  destruct Hcf as (cf & Ecf & Hnc). rewrite Ecf.
+  destruct (((d =? 1) || (d =? -1)) && negb cf) eqn:Eel.
+  - (* first ... last *)
+    rewrite pav_mk.
+    destruct (lb_check (linelength o) (c1 + 5 + len (tok_k k last)) (len (tok_k k last)) 1) as [[brk_ c4] a4] eqn:Elb.
+    exists (if brk_ then nl4 else [32]), (tail_text k x last (if brk_ then nl4 else [32])), (c4 + 1).
+    split; [destruct brk_; auto|]. split.
+    + f_equal. f_equal. f_equal. f_equal.
+      all: unfold tail_text, ell4; rewrite <- ?app_assoc; cbn [app]; try reflexivity.
+      all: rewrite ?len_app; destruct brk_; unfold len, nl4; cbn [length]; rewrite ?app_length; cbn [length]; rewrite ?app_length; cbn [length]; lia.
+    + left. apply andb_true_iff in Eel as [E1 E2]. split; [reflexivity|]. split.
+      * apply orb_true_iff in E1 as [E1|E1]; apply Z.eqb_eq in E1; auto.
+      * apply Hnc. now apply negb_true_iff in E2.
+  - (* first second ... last *)
+    rewrite !pav_mk.
+    destruct (lb_check (linelength o) (c1 + 1 + len (tok_k k (x + d)) + 5 + len (tok_k k last))
+                       (len (tok_k k last)) 1) as [[brk_ c4] a4] eqn:Elb.
+    exists (if brk_ then nl4 else [32]),
+           (tok_k k x ++ [32] ++ tail_text k (x + d) last (if brk_ then nl4 else [32])), (c4 + 1).
+    split; [destruct brk_; auto|]. split.
+    + f_equal. f_equal. f_equal. f_equal.
+      all: unfold tail_text, ell4; rewrite <- ?app_assoc; cbn [app]; try reflexivity.
+      all: rewrite ?len_app; destruct brk_; unfold len, nl4; cbn [length]; rewrite ?app_length; cbn [length]; rewrite ?app_length; cbn [length]; lia.
+    + right. reflexivity.
+Qed.
